@@ -30,6 +30,21 @@ def ident(x=None):
     return x
 def first(*a):
     return a[0]
+def in_thread(f):
+    """runs f in a worker thread started (and joined) inside the evaluation"""
+    import threading
+    out = []
+    def run():
+        try:
+            out.append(("ok", f()))
+        except BaseException as e:
+            out.append(("exc", e))
+    t = threading.Thread(target=run)
+    t.start()
+    t.join()
+    if out[0][0] == "exc":
+        raise out[0][1]
+    return out[0][1]
 class Thing(object):
     """an object of a type dds does not track"""
     def __str__(self):
@@ -158,6 +173,7 @@ class Prog:
         self.n = world.n
         self.spec = spec
         self.pkg, self.rpkg, self.xpkg = f"vp{self.n}", f"vr{self.n}", f"vx{self.n}"
+        self.has_helper_pkg = any(f["module"].startswith("H:") for f in spec["funcs"])
         self.root = pkgroot or world.scratch
         self.store_kind = store_kind
         self.store_dir = os.path.join(world.scratch, f"store{self.n}")
@@ -192,7 +208,7 @@ class Prog:
         return changed
 
     def purge(self):
-        for k in [k for k in sys.modules if k.split(".")[0] in (self.pkg, self.rpkg, self.xpkg)]:
+        for k in [k for k in sys.modules if k.split(".")[0] in (self.pkg, self.rpkg, self.xpkg, self.pkg.replace("vp", "vh"))]:
             del sys.modules[k]
         linecache.clearcache()
         importlib.invalidate_caches()
@@ -224,6 +240,8 @@ class Prog:
             order = order[:-1] + ["reexp"] + order[-1:]   # sources, then the re-exporting module, then its importer
         if self.spec.get("ext") and (self.xpkg + ".util") in sys.modules:
             importlib.reload(sys.modules[self.xpkg + ".util"])
+        for k in [k for k in list(sys.modules) if k.startswith(self.pkg.replace("vp", "vh") + ".")]:
+            importlib.reload(sys.modules[k])
         for m in order:
             full = self.pkg + "." + m
             if full in sys.modules:
@@ -243,7 +261,7 @@ class Prog:
         import dds
         self.w.fresh_dds_state()
         self.purge()
-        for p in self.accept_first + [self.pkg + self.accept_suffix] + self.extra_accept:
+        for p in self.accept_first + [self.pkg + self.accept_suffix] + self.extra_accept + ([self.pkg.replace("vp", "vh")] if self.has_helper_pkg else []):
             dds.accept_module(p)
         self.open_store()
 
@@ -358,7 +376,7 @@ class Prog:
         import dds._api as api
         if self.capture is not None and getattr(api, "_store_var", None) is not self.capture:
             dds.set_store(self.capture)
-        for p in self.accept_first + [self.pkg + self.accept_suffix] + self.extra_accept:
+        for p in self.accept_first + [self.pkg + self.accept_suffix] + self.extra_accept + ([self.pkg.replace("vp", "vh")] if self.has_helper_pkg else []):
             dds.accept_module(p)
 
     def run(self, entry, opts=None, fault=None):
@@ -372,6 +390,9 @@ class Prog:
         pl.fault = fault
         rd.kept[:] = []
         rd.committed = dict(self.ref_committed)
+        self.mod(S._fn(self.spec, self.spec["entries"][entry]["fn"])["module"], ref=True)   # imported before the swap below
+        real_dds = sys.modules["dds"]
+        sys.modules["dds"] = rd   # a function-level 'import dds' of the reference copy must find the stub too
         try:
             ref.value = self._call(entry, True, None)
             ref.status = "ok"
@@ -379,6 +400,8 @@ class Prog:
             ref.status = "exc"
             ref.exc = type(ex).__name__
             ref.excobj = ex
+        finally:
+            sys.modules["dds"] = real_dds
         ref.log = list(pl.cur)
         ref.sigs = dict((p, v) for p, v in rd.kept)  # path -> value (latest in program order)
         real = Obs()
@@ -439,6 +462,6 @@ class Prog:
 
     def cleanup(self):
         self.purge()
-        for d in (self.pkg, self.rpkg, self.xpkg):
+        for d in (self.pkg, self.rpkg, self.xpkg, self.pkg.replace("vp", "vh")):
             shutil.rmtree(os.path.join(self.root, d), ignore_errors=True)
         shutil.rmtree(self.store_dir, ignore_errors=True)
